@@ -80,7 +80,7 @@ pub fn run(ctx: &Ctx) -> Report {
     let mut rep = Report::new("C01", RULE);
     rep.assume("requests are normalised with the router's own configuration before match_request (implicit precondition of every caller)");
     rep.assume("paths/queries are canonical ASCII here (normalisation is C09's subject); unparsable CIDRs/instants/weekdays, unknown header kinds, value-less conditions and marker-less match_regex are skipped as the library documents (logged and skipped)");
-    rep.add(run_part(ctx, "routers", ctx.cases(25_000, 1_000_000), || router_case_strategy(RuleOpts::MATCH_ONLY, 12, 6, 10), check, &[]));
+    rep.add(run_part(ctx, "routers", ctx.cases(120_000, 3_000_000), || router_case_strategy(RuleOpts::MATCH_ONLY, 12, 6, 10), check, &[]));
     rep
 }
 
